@@ -284,6 +284,114 @@ Proof.
     exact IH.
 Qed.
 
+Definition all_signed_by (s : N) (sms : list smsg) : Prop := forall sm, In sm sms -> fst sm = s.
+
+Lemma all_signed_by_cons s sm r : all_signed_by s (sm :: r) -> fst sm = s /\ all_signed_by s r.
+Proof. intros H. split; [apply H; left; reflexivity | intros x Hx; apply H; right; exact Hx]. Qed.
+
+Lemma upfront_of_single s base : forall sms, all_signed_by s sms ->
+  upfront_of s base sms = upfront base (map snd sms).
+Proof.
+  induction sms as [|sm r IH]; intros Ha; [reflexivity|].
+  apply all_signed_by_cons in Ha. destruct Ha as [Hs Hr].
+  cbn [map]. rewrite upfront_of_cons, upfront_cons, (IH Hr). unfold own. rewrite Hs, N.eqb_refl. reflexivity.
+Qed.
+
+Lemma refunds_of_single s : forall sms l, all_signed_by s sms -> length l = length sms ->
+  refunds_of s sms l = zsum (map snd l).
+Proof.
+  induction sms as [|sm r IH]; intros [|ua l'] Ha Hl; try discriminate; [reflexivity|].
+  apply all_signed_by_cons in Ha. destruct Ha as [Hs Hr]. injection Hl as Hl.
+  cbn [map]. rewrite refunds_of_cons, zsum_cons, (IH _ Hr Hl). unfold own. rewrite Hs, N.eqb_refl. reflexivity.
+Qed.
+
+Lemma run_msgs_length p : forall ms coll evs l, run_msgs p coll ms evs = Some l -> length l = length ms.
+Proof.
+  induction ms as [|m r IH]; intros coll evs l H.
+  - cbn in H. injection H as <-. reflexivity.
+  - cbn [run_msgs] in H. destruct (apply_msg p coll m (hd HardErr evs)) as [[u a]|]; [|discriminate].
+    destruct (run_msgs p (coll - a) r (tl evs)) as [l'|] eqn:Hr; [|discriminate].
+    injection H as <-. cbn. f_equal. eapply IH; eassumption.
+Qed.
+
+Lemma run_msgs_s_list p : forall sms b coll evs,
+  option_map snd (run_msgs_s p b coll sms evs) = run_msgs p coll (map snd sms) evs.
+Proof.
+  induction sms as [|[s m] r IH]; intros b coll evs; [reflexivity|].
+  cbn [run_msgs_s run_msgs map snd].
+  destruct (apply_msg p coll m (hd HardErr evs)) as [[u a]|]; [|reflexivity].
+  rewrite <- (IH (badd b s a) (coll - a) (tl evs)).
+  destruct (run_msgs_s p (badd b s a) (coll - a) r (tl evs)) as [[[b2 c2] l2]|]; reflexivity.
+Qed.
+
+Lemma first_error_s_single p b s : forall sms, all_signed_by s sms ->
+  first_error_s (can_transfer_s p b) sms = first_error (can_transfer p (b s)) (map snd sms).
+Proof.
+  induction sms as [|sm r IH]; intros Ha; [reflexivity|].
+  apply all_signed_by_cons in Ha. destruct Ha as [Hs Hr].
+  cbn [first_error_s first_error map].
+  assert (Hc : can_transfer_s p b sm = can_transfer p (b s) (snd sm)) by (unfold can_transfer_s; rewrite Hs; reflexivity).
+  rewrite Hc, (IH Hr). reflexivity.
+Qed.
+
+Lemma existsb_single (b : N -> Z) s : forall sms, all_signed_by s sms ->
+  existsb (fun sm : smsg => b (fst sm) <? declared_fee (snd sm) + m_value (snd sm)) sms =
+  existsb (fun m => b s <? declared_fee m + m_value m) (map snd sms).
+Proof.
+  induction sms as [|sm r IH]; intros Ha; [reflexivity|].
+  apply all_signed_by_cons in Ha. destruct Ha as [Hs Hr].
+  cbn [existsb map]. rewrite Hs, (IH Hr). reflexivity.
+Qed.
+
+Lemma eth_ante_s_single check p s b sms : all_signed_by s sms ->
+  match eth_ante_s check p b sms, eth_ante check p (b s) (map snd sms) with
+  | inl c, inl c' => c = c'
+  | inr (_, d), inr d' => d = d'
+  | _, _ => False
+  end.
+Proof.
+  intros Ha. unfold eth_ante_s, eth_ante.
+  destruct (eth_min_price p (map snd sms)); cbn [negb]; [|reflexivity].
+  rewrite (existsb_single b s sms Ha).
+  destruct (check && _); [reflexivity|].
+  rewrite (first_error_s_single p b s sms Ha).
+  destruct (negb _); [reflexivity|].
+  apply gas_consume_s_single. exact Ha.
+Qed.
+
+(** one account signs every message: the signer model and the single-sender
+    model give the same verdict, the same per-message results, the same payment
+    of that account and the same gain of the collector *)
+Lemma single_signer_agrees p s b coll sms evs :
+  all_signed_by s sms ->
+  match deliver_eth_s p b coll sms evs, deliver_eth p (b s) coll (map snd sms) evs with
+  | RejectedS c, Rejected c' => c = c'
+  | FailedS b1 c1 g, Failed d g' => g = g' /\ c1 - coll = d /\ b s - b1 s = d
+  | ExecutedS b2 c2 l, Executed d l' =>
+      l = l' /\ c2 - coll = d - zsum (map snd l) /\ b s - b2 s = d - zsum (map snd l)
+  | _, _ => False
+  end.
+Proof.
+  intros Ha. unfold deliver_eth_s, deliver_eth.
+  destruct sms as [|sm r]; [reflexivity|]. cbn [map].
+  change (snd sm :: map snd r) with (map snd (sm :: r)). set (sms := sm :: r) in *.
+  destruct (forallb msg_basic_ok (map snd sms)); cbn [negb]; [|reflexivity].
+  pose proof (eth_ante_s_single false p s b sms Ha) as He.
+  destruct (eth_ante_s false p b sms) as [c|[b1 d]] eqn:Hs;
+    destruct (eth_ante false p (b s) (map snd sms)) as [c'|d'] eqn:Hd; try contradiction; [exact He|].
+  subst d'.
+  apply eth_ante_s_inr in Hs. destruct Hs as [_ Hg].
+  destruct (gas_consume_s_inr _ _ _ _ _ _ _ Hg) as (Hdd & Hb1 & _).
+  specialize (Hb1 s). rewrite (upfront_of_single s _ sms Ha) in Hb1.
+  pose proof (run_msgs_s_list p sms b1 (coll + d) evs) as Hl.
+  destruct (run_msgs_s p b1 (coll + d) sms evs) as [[[b2 c2] l]|] eqn:Hr; cbn [option_map snd] in Hl; rewrite <- Hl.
+  - destruct (run_msgs_s_inv _ _ _ _ _ _ _ _ Hr) as (Hrm & Hb2 & Hc2).
+    specialize (Hb2 s). rewrite (refunds_of_single s sms l Ha) in Hb2
+      by (rewrite (run_msgs_length _ _ _ _ _ Hrm); apply map_length).
+    repeat split; [lia|]. rewrite Hb2, Hb1. lia.
+  - repeat split; [lia|]. rewrite Hb1. lia.
+Qed.
+
 (** ------------------------------------------------------------------ *)
 (** * Non-vacuity and the refutation of the accumulating deduction *)
 
